@@ -64,6 +64,9 @@ func verifyFunction(l *Loaded, cs *Contracts, fn *ssa.Function, con *Contract) (
 		n := "fv." + sanitize(fv.Name())
 		e.B.emit(fmt.Sprintf("(declare-const %s %s)", n, e.B.sortOf(fv.Type())))
 		e.assumeWF(n, fv.Type(), st)
+		if _, isPtr := fv.Type().Underlying().(*types.Pointer); isPtr {
+			e.B.assume("(not (= " + n + " nilptr))") // a captured variable's cell always exists
+		}
 		fr.binds = append(fr.binds, Val{T: n, Typ: fv.Type()})
 		names["&"+fv.Name()] = CE{T: n, Typ: fv.Type()}
 	}
